@@ -310,6 +310,12 @@ def runWriter : FS → List Ev → List WRes × FS
     | none => runWriter st evs
     | some w => runWriter { st with out := st.out ++ w } evs
 
+/-- An upper bound on the number of frames a sequence of sender events puts on the connection. -/
+def frameBound : List Ev → Nat
+  | [] => 0
+  | .write p :: evs => p.length / crossnode.MaxFrameSize + 1 + frameBound evs
+  | _ :: evs => 1 + frameBound evs
+
 /-- Everything both ends observe. -/
 structure StObs where
   writes : List WRes
